@@ -51,12 +51,12 @@ def scalar_mul_checks(ctx, pool, scale):
     for structured bit strings (0, 1, all ones, r-1, r, longer than the modulus) in witness / input / constant mode"""
     rng = ctx.rng; lines = []; mlines = []; nat = []
     limbsets = [[0], [1], [2], [2**64 - 1], [0, 1], [2**64 - 1, 2**64 - 1], [(R >> (64 * i)) & (2**64 - 1) for i in range(4)],
-                [((R - 1) >> (64 * i)) & (2**64 - 1) for i in range(4)], [0, 0, 0, 0, 1]] + [[rng.bits(64) for _ in range(1 + rng.below(3))] for _ in range(2 * scale)]
+                [((R - 1) >> (64 * i)) & (2**64 - 1) for i in range(4)], [0, 0, 0, 0, 1], [rng.bits(64) for _ in range(5)], [1, 0, 0, 0, 0, 0, 0, 2**63]] + [[rng.bits(64) for _ in range(1 + rng.below(3))] for _ in range(2 * scale)]
     for i, l in enumerate(limbsets):
         c = [IDENT, T2REP, pool.base[0]][i % 3] if i < 6 else pool.pick(rng)
         if not pyref.valid(c): c = pool.base[0]
         x, y = pyref.aff(c); L = ','.join('%x' % v for v in l)
-        for mode in ('witness', 'input', 'const')[: 3 if i < 4 else 1]:
+        for mode in ('witness', 'input', 'const')[: 3 if (i < 4 or len(l) > 4) else 1]:      # every mode for the short ones and for bit strings longer than 256 bits
             lines.append('r1.scalar_mul %s %s %s' % (mode, E(c), L)); nat.append('el.mul_bigint %s %s' % (E(c), L))
             mlines.append('g r1.scalar_mul %d %d %d %s' % (MODE_KIND[mode], x, y, ' '.join(str(v) for v in l)))
     hout = harness.run_script('ark', lines); nout = harness.run_script('ark', nat); mout = model.run_model(mlines)
